@@ -4,155 +4,6 @@
 use vstd::prelude::*;
 verus! {
 
-//@@ extract file=acts/src/scheduler/state.rs item="enum TaskState" name=TaskState
-//@@ opt structural
-//@@ end
-//@@ extract file=acts/src/event/message.rs item="enum MessageState" name=MessageState
-//@@ opt structural
-//@@ end
-
-// ---- oracle: the stage partition of property C02, written from the statement
-pub open spec fn st_created(s: TaskState) -> bool { s is Ready || s is Pending || s is Interrupt }
-pub open spec fn st_terminal(s: TaskState) -> bool {
-    s is Completed || s is Submitted || s is Skipped || s is Backed || s is Cancelled || s is Aborted || s is Removed || s is Error
-}
-pub open spec fn st_rank(s: TaskState) -> int {
-    if s is None { 0 } else if st_created(s) { 1 } else if s is Running { 2 } else { 3 }
-}
-// the four stages partition the 13 states
-pub proof fn lemma_partition(s: TaskState)
-    ensures
-        (s is None) || st_created(s) || (s is Running) || st_terminal(s),
-        !((s is None) && st_created(s)), !((s is None) && st_terminal(s)), !(st_created(s) && st_terminal(s)),
-        !((s is Running) && (st_created(s) || st_terminal(s) || s is None)),
-        st_terminal(s) <==> st_rank(s) == 3,
-{}
-
-// ---- oracle for C08: message state of a task state
-pub open spec fn msg_state_of(s: TaskState) -> MessageState {
-    match s {
-        TaskState::None => MessageState::None,
-        TaskState::Ready | TaskState::Pending | TaskState::Running | TaskState::Interrupt => MessageState::Created,
-        TaskState::Completed => MessageState::Completed,
-        TaskState::Submitted => MessageState::Submitted,
-        TaskState::Backed => MessageState::Backed,
-        TaskState::Cancelled => MessageState::Cancelled,
-        TaskState::Error => MessageState::Error,
-        TaskState::Aborted => MessageState::Aborted,
-        TaskState::Skipped => MessageState::Skipped,
-        TaskState::Removed => MessageState::Removed,
-    }
-}
-pub open spec fn msg_terminal(m: MessageState) -> bool {
-    m is Completed || m is Cancelled || m is Submitted || m is Backed || m is Error || m is Skipped || m is Aborted || m is Removed
-}
-// created class (and running) -> Created; each terminal state -> its namesake; terminality commutes
-pub proof fn lemma_msg_state(s: TaskState)
-    ensures
-        (st_created(s) || s is Running) ==> msg_state_of(s) is Created,
-        st_terminal(s) <==> msg_terminal(msg_state_of(s)),
-        s is None <==> msg_state_of(s) is None,
-{}
-
-impl TaskState {
-//@@ extract file=acts/src/scheduler/state.rs in="impl TaskState" item="fn is_none"
-//@@ spec
-    ensures
-        //# P4-none
-        ret == (self is None),
-//@@ end
-//@@ extract file=acts/src/scheduler/state.rs in="impl TaskState" item="fn is_created"
-//@@ spec
-    ensures
-        //# P4-created
-        ret == st_created(*self),
-//@@ end
-//@@ extract file=acts/src/scheduler/state.rs in="impl TaskState" item="fn is_completed" props=C02,C03,C05
-//@@ spec
-    ensures
-        //# P4-terminal
-        ret == st_terminal(*self),
-//@@ end
-//@@ extract file=acts/src/scheduler/state.rs in="impl TaskState" item="fn is_abort"
-//@@ spec
-    ensures
-        //# P4-abort
-        ret == (self is Aborted),
-//@@ end
-//@@ extract file=acts/src/scheduler/state.rs in="impl TaskState" item="fn is_error" props=C02,C06
-//@@ spec
-    ensures
-        //# P4-error
-        ret == (self is Error),
-//@@ end
-//@@ extract file=acts/src/scheduler/state.rs in="impl TaskState" item="fn is_removed"
-//@@ spec
-    ensures
-        //# P4-removed
-        ret == (self is Removed),
-//@@ end
-//@@ extract file=acts/src/scheduler/state.rs in="impl TaskState" item="fn is_ready"
-//@@ spec
-    ensures
-        //# P4-ready
-        ret == (self is Ready),
-//@@ end
-//@@ extract file=acts/src/scheduler/state.rs in="impl TaskState" item="fn is_running"
-//@@ spec
-    ensures
-        //# P4-running
-        ret == (self is Running),
-//@@ end
-//@@ extract file=acts/src/scheduler/state.rs in="impl TaskState" item="fn is_pending" props=C02,C01
-//@@ spec
-    ensures
-        //# P4-pending
-        ret == (self is Pending),
-//@@ end
-//@@ extract file=acts/src/scheduler/state.rs in="impl TaskState" item="fn is_success"
-//@@ spec
-    ensures
-        //# P4-success
-        ret == (self is Completed),
-//@@ end
-//@@ extract file=acts/src/scheduler/state.rs in="impl TaskState" item="fn is_skip"
-//@@ spec
-    ensures
-        //# P4-skip
-        ret == (self is Skipped),
-//@@ end
-//@@ extract file=acts/src/scheduler/state.rs in="impl TaskState" item="fn is_next" props=C02,C04
-//@@ spec
-    ensures
-        //# P4-next
-        ret == (self is Skipped || self is Running || self is Removed || self is Completed),
-//@@ end
-//@@ extract file=acts/src/scheduler/state.rs in="impl TaskState" item="fn is_interrupted"
-//@@ spec
-    ensures
-        //# P4-interrupted
-        ret == (self is Interrupt),
-//@@ end
-}
-
-impl MessageState {
-//@@ extract file=acts/src/event/message.rs in="impl MessageState" item="fn is_completed" name=MessageState::is_completed props=C08
-//@@ spec
-    ensures
-        //# M3-terminal
-        ret == msg_terminal(*self),
-//@@ end
-}
-
-impl vstd::std_specs::convert::FromSpecImpl<TaskState> for MessageState {
-    open spec fn obeys_from_spec() -> bool { true }
-    open spec fn from_spec(s: TaskState) -> Self { msg_state_of(s) }
-}
-impl From<TaskState> for MessageState {
-//@@ extract file=acts/src/event/message.rs in="impl From<TaskState> for MessageState" item="fn from" name=MessageState::from_task_state props=C08
-//@@ opt traitpost
-//@@ end
-}
-
+//@@ include prelude/state.rs
 } // verus!
 fn main() {}
